@@ -58,6 +58,13 @@ def run(chk):
     n_corpus = len(scns)
     for i in range(n_scn):
         scns.append(pipe.gen_scenario(rng, big=(i % 7 == 0)))
+    small = []
+    for st in ("stop", "ignore"):
+        for md in ("name", "path"):
+            small += list(pipe.exhaustive_plans(2, mode=md, strategy=st))
+            if not quick:
+                small += list(pipe.exhaustive_plans(3, mode=md, strategy=st))
+    scns += small
     obss = run_scenarios(chk, scns)
     # every fault index for a tenth of the scenarios, three random ones for another fifth
     fscns = []
@@ -87,6 +94,7 @@ def run(chk):
         "if at least one system call was issued; plus %d filesystem-primitive cases (model vs kernel)" % nprim)
     chk.coverage["input_distribution"] = pipe.stats_of(all_s, all_o)
     chk.coverage["corpus_cases"] = n_corpus
+    chk.coverage["exhaustive_small_scope"] = len(small)
     chk.coverage["fault_scenarios"] = len(fscns)
     chk.coverage["excluded_from_model_comparison"] = excluded
     chk.coverage["safe_scenarios_checked_by_oracle"] = sum(1 for s in all_s if pipe.safe_scenario(s))
